@@ -85,3 +85,15 @@ package rlp
 //@   ensures[C11] forall L uint64 :: (smalltag == 0xC0 ==> rlp_kind(arr(buf), off(buf), L) == 2) && (smalltag == 0x80 ==> rlp_kind(arr(buf), off(buf), L) == 1)
 //@   assigns buf
 //@   nopanic[C11]
+
+// ---- decode.go: reflection-driven entry points are outside the generator's subset ---------
+// (callers treat them as opaque: results unconstrained, inferred frame havocked)
+
+//@ func Stream.Decode
+//@   opaque
+
+//@ func DecodeBytes
+//@   opaque
+
+//@ func Decode
+//@   opaque
